@@ -425,7 +425,9 @@ theorem lstep_doLocalWrite (fuel : Nat) (ih : LMachine fuel) :
   obtain ⟨_, _, _, _, _, _, i7, i8, _⟩ := ih
   simp only [doLocalWrite]
   split
-  · exact i8 _ _ h h0
+  · rcases discDone_cases w which with ⟨e, _⟩ | ⟨e, hn0, _⟩ <;> rw [e]
+    · exact i8 _ _ h h0
+    · exact i8 _ _ h.handleDisconnect (fun h00 => (hn0 h00).elim)
   · split
     · rename_i w' heq
       have k := ioWrite_keep heq
